@@ -440,10 +440,12 @@ def names_modules():
     """Nets called like either parser's constant nodes, next to literal constants."""
     for nm in ("tie0", "tie1", "tie0_1", "tie"):
         for lit in ("1'b0", "1'b1"):
-            for role in ("input", "wire"):
+            for role in ("input", "wire", "implicit"):
                 items = [["input", ["a"] + ([nm] if role == "input" else [])], ["output", ["y", "z"]]]
                 if role == "wire":
                     items += [["wire", [nm]], ["gate", "not", [["U9", [nm, "a"]]]]]
+                if role == "implicit":
+                    items += [["gate", "not", [["U9", [nm, "a"]]]]]       # used without a wire declaration
                 items += [["gate", "and", [["U0", ["y", nm, lit]]]], ["bb", "ff", "f0", [["clk", lit], ["d", nm], ["q", "z"]]]]
                 yield {"name": "top", "ports": items[0][1] + ["y", "z"], "items": items}
     # identifier shapes the grammar accepts (leading underscore, all-underscore, capitals, digits) in every role
